@@ -13,8 +13,8 @@ import (
 
 func init() {
 	eng.Register(&eng.Check{
-		ID: "C18",
-		Rule: "E1 over configurations: ALL option sequences of length <=3 (thorough <=4) over the alphabet {WithTagName bexpr|json|\"\"; WithHookFn nil|identity|unwrap-wrapper|constant-42; WithUnknownValue 0|\"\"|\"a\"; WithMaxExpressions 0|N+1|2^64-1|N-1; a nil Option} (15 letters: every subset, order and repetition) x expressions x data exercising tags, wrapper values and absent keys; oracle: creation fails iff the effective (last) budget is N-1, otherwise the outcome of the 1st, 2nd and 3rd Evaluate equals the reference under the EFFECTIVE configuration (last occurrence of each option wins; order of distinct options irrelevant; neutral settings equal absence). N is found per expression by bisection over the public option. Distinct by construction; non-trivial = sequence with >=2 non-nil options.",
+		ID:          "C18",
+		Rule:        "E1 over configurations: ALL option sequences of length <=3 (thorough <=4) over the alphabet {WithTagName bexpr|json|\"\"; WithHookFn nil|identity|unwrap-wrapper|constant-42; WithUnknownValue 0|\"\"|\"a\"; WithMaxExpressions 0|N+1|2^64-1|N-1; a nil Option} (15 letters: every subset, order and repetition) x expressions x data exercising tags, wrapper values and absent keys; oracle: creation fails iff the effective (last) budget is N-1, otherwise the outcome of the 1st, 2nd and 3rd Evaluate equals the reference under the EFFECTIVE configuration (last occurrence of each option wins; order of distinct options irrelevant; neutral settings equal absence). N is found per expression by bisection over the public option. Distinct by construction; non-trivial = sequence with >=2 non-nil options.",
 		Assumptions: []string{"reference interpreter as C01 incl. the hook family written in the idiom of the repository's tests", "N (parser step count) located by bisection, monotonicity itself is C11's business"},
 		Run:         runC18,
 	})
@@ -60,6 +60,9 @@ func c18Docs() []*Node {
 		mp(str("a"), str(""), str("m"), mp(str("c"), one)),
 		mp(str("l"), NSlice(TAny, NWrapper(mp(str("x"), one)), NWrapper(one)), str("w"), NWrapper(mp(str("x"), NWrapper(one)))),
 		mp(str("l"), NSlice(NWrapper(one).T, NWrapper(one), NWrapper(NInt(KInt, false, 42))), str("w"), NPtr(NWrapper(mp(str("c"), one)))),
+		// selectors that RESOLVE to nil / zero values (an unknown value must not replace them)
+		mp(str("a"), NNilAny(), str("m"), mp(str("c"), NNilAny(), str("b"), NNilAny()), str("w"), mp(str("x"), NNilAny(), str("c"), NNilPtr(TInt)), str("l"), NSlice(TAny, NNilAny())),
+		mp(str("a"), NInt(KInt, false, 0), str("m"), mp(str("c"), str("")), str("w"), mp(str("c"), NInt(KInt, false, 0)), str("zz"), str("")),
 	}
 }
 
